@@ -84,7 +84,7 @@ Theorem C01_cts_opens_window : forall sa dest n b prio pgn g x now,
   0 <= pgn < 16777216 ->
   flat (process_tp_cm prio dest sa (f_data (tp21_cts dest sa g (x + 1) pgn)) now n) =
   (wake (set_snd n (tset (n_snd n) (tp21_hash sa dest)
-      (with_waitcts (upd_sbuf b ST_SENDING_IN_CTS now x) (Some (x + g - 1))))), [], RDone 0).
+      (with_waitcts (upd_sbuf b ST_SENDING_IN_CTS (Z.max now (s_nb b)) x) (Some (x + g - 1))))), [], RDone 0).
 Proof. exact cts_opens_window. Qed.
 Print Assumptions C01_cts_opens_window.
 
